@@ -10,7 +10,11 @@ git checkout -q -- . ; rm -f tests/demo_test.rs tests/seeded_demo_*.rs
 demo=$(ls $sd/*.rs 2>/dev/null | head -1)
 git apply $sd/patch.diff || { echo "$id/$i: patch does not apply"; exit 2; }
 export CARGO_NET_OFFLINE=true
-suite=$(cargo test --workspace --no-fail-fast --offline 2>&1 | grep -E "^test result" | tr '\n' ' ')
+suite=$(timeout 900 cargo test --workspace --no-fail-fast --offline 2>&1 | grep -E "^test result" | tr '\n' ' ')
+if [ -z "$suite" ] || [ $(echo "$suite" | grep -o "test result" | wc -l) -lt 4 ]; then
+  # a seeded deadlock can make the suite hang in rare runs: try once more before calling it broken
+  suite=$(timeout 900 cargo test --workspace --no-fail-fast --offline 2>&1 | grep -E "^test result" | tr '\n' ' ')
+fi
 suite_ok=yes; echo "$suite" | grep -q "FAILED\|[1-9][0-9]* failed" && suite_ok=no
 [ -z "$suite" ] && suite_ok=no
 if [ -n "$demo" ]; then
